@@ -929,16 +929,23 @@ func (f *Field) SetBit(rowID, colID uint64, t *time.Time) (changed bool, err err
 func (f *Field) ClearBit(rowID, colID uint64) (changed bool, err error) {
 	viewName := viewStandard
 
+	// Collect the views under the field lock: Set() calls with a timestamp
+	// insert new time views into the map concurrently.
+	var timeViews []*view
+	f.mu.RLock()
+	view, present := f.viewMap[viewName]
+	if len(f.viewMap) > 1 || !present { // otherwise assuming no time views
+		timeViews = f.allTimeViewsSortedByQuantum()
+	}
+	f.mu.RUnlock()
+
 	// Clear non-time bit. A field created with noStandardView has no
 	// standard view, but its time views still have to be cleared.
-	if view, present := f.viewMap[viewName]; present {
+	if present {
 		if v, err := view.clearBit(rowID, colID); err != nil {
 			return changed, errors.Wrap(err, "clearing on view")
 		} else if v {
 			changed = v
-		}
-		if len(f.viewMap) == 1 { // assuming no time views
-			return changed, nil
 		}
 	} else if !f.options.NoStandardView {
 		return changed, nil
@@ -949,7 +956,7 @@ func (f *Field) ClearBit(rowID, colID uint64) (changed bool, err error) {
 	// visited parent-first (hour views sort before their day view, and a
 	// day view is followed directly by the next year view), so a view
 	// holding the bit could be skipped.
-	for _, view := range f.allTimeViewsSortedByQuantum() {
+	for _, view := range timeViews {
 		v, err := view.clearBit(rowID, colID)
 		if err != nil {
 			return changed, errors.Wrapf(err, "clearing on view %s", view.name)
